@@ -575,11 +575,12 @@ class CompareOp(Contract):
     id = "C01.TextQueryBackend.convert_condition_field_compare_op_val"
     target = f"{CB}:TextQueryBackend.convert_condition_field_compare_op_val"
     props = ("C01", "C03")
-    cases = ("LT", "LTE", "GT", "GTE", "off")
+    cases = ("LT", "LTE", "GT", "GTE", "off", "GT on a timestamp part", "LTE on a timestamp part")
 
     def setup(self, E):
         esc_summary(E)
         E.externals["str.format"] = lambda I, a, k: I.E.str_format_hook(I, a, k)
+        E.summaries[f"{TY}:SigmaNumber.__str__"] = lambda I, so, a, k: I.fresh("number_text", "str")
 
     def args(self, I, case):
         idx = I.E.index
@@ -594,27 +595,45 @@ class CompareOp(Contract):
         if ops_cls is None:
             raise OutsideSubset("compare operator enum not found")
         toks = {EnumVal(ops_cls, o): I.fresh(f"token_{o}", "str") for o in ("LT", "LTE", "GT", "GTE")}
-        num = SObj(idx.lookup(f"{TY}:SigmaNumber"), {}, lazy=True)
+        tsp = case.endswith("timestamp part")
+        TP = idx.lookup(f"{TY}:TimestampPart")
+        # a timestamp part carries ANY number - zero included: the part expression is chosen by the type of the value, not by its magnitude
+        num = SObj(idx.lookup(f"{TY}:SigmaTimestampPart"), {"number": I.fresh("n", "int"), "timestamp_part": EnumVal(TP, "MINUTE")}, lazy=True) if tsp else SObj(idx.lookup(f"{TY}:SigmaNumber"), {}, lazy=True)
         fld = I.fresh("field", "str")
-        val = SObj(CE, {"number": num, "op": EnumVal(ops_cls, case if case != "off" else "GT")}, lazy=True)
+        opname = case.split()[0] if tsp else (case if case != "off" else "GT")
+        val = SObj(CE, {"number": num, "op": EnumVal(ops_cls, opname)}, lazy=True)
         cond = SObj(idx.lookup("sigma.conditions:ConditionFieldEqualsValueExpression"), {"field": fld, "value": val}, lazy=True)
         got = {}
 
+        t = I.fresh("template", "str")
+        tpt = I.fresh("timestamp_part_template", "str")
+        I.ctx.assume(z3.Length(tpt.t) > 0)          # (a backend that defines the expression)
+
         def fmt(I2, a, k):
+            if a and a[0] is tpt:
+                got["part_call"] = dict(k)
+                got["part_text"] = I2.fresh("rendered_part", "str")
+                return got["part_text"]
             got.update(k)
             got["$self"] = a
             return I2.fresh("rendered", "str")
         I.E.str_format_hook = fmt
-        t = I.fresh("template", "str")
-        me = SObj(idx.lookup(f"{CB}:TextQueryBackend"), {"compare_op_expression": None if case == "off" else t, "compare_operators": toks, "field_timestamp_part_expression": None, "timestamp_part_mapping": None}, lazy=True)
-        return {"self": me, "args": [cond, I.fresh("state", "opaque", "State")], "got": got, "toks": toks, "num": num, "fld": fld, "val": val, "case": case}
+        me = SObj(idx.lookup(f"{CB}:TextQueryBackend"), {"compare_op_expression": None if case == "off" else t, "compare_operators": toks, "field_timestamp_part_expression": tpt if tsp else None,
+                                                        "timestamp_part_mapping": {EnumVal(TP, "MINUTE"): "%M", EnumVal(TP, "HOUR"): "%H"} if tsp else None}, lazy=True)
+        return {"self": me, "args": [cond, I.fresh("state", "opaque", "State")], "got": got, "toks": toks, "num": num, "fld": fld, "val": val, "case": case, "tsp": tsp, "opname": opname}
 
     def post(self, I, inp, r):
         got = inp["got"]
+        if inp["tsp"]:
+            pc = got.get("part_call")
+            I.ctx.require(pc is not None and "$self" not in got, "a comparison on a timestamp part is rendered with the timestamp-part expression of the field, whatever the number (0 included)")
+            if pc is not None:
+                I.ctx.require(is_esc_of(I, pc.get("field"), inp["fld"]) and pc.get("timestamp_part") == "%M", "the part expression receives the escaped field and the backend's token of THIS part")
+            return
         I.ctx.require(inp["case"] != "off" and "$self" in got, "the comparison template is rendered")
         if "$self" in got:
             I.ctx.require(is_esc_of(I, got.get("field"), inp["fld"]), "field == the escaped field")
-            I.ctx.require(got.get("operator") is inp["toks"][inp["val"].fields["op"]], f"operator == the backend's token for {inp['case']}")
+            I.ctx.require(got.get("operator") is inp["toks"][inp["val"].fields["op"]], f"operator == the backend's token for {inp['opname']}")
             I.ctx.require(got.get("value") is inp["num"], "value == the number of the comparison")
 
     def raises(self, I, inp, exc):
